@@ -166,6 +166,8 @@ def parseOp : List String → Option Op
   | ["get", i] => i.toNat?.map (.get · false)
   | ["getf", i] => i.toNat?.map (.get · false)
   | ["getc", i] => i.toNat?.map (.get · true)
+  | ["gettf", i] => i.toNat?.map (.get · true)     -- Get(i, true, false): only createIfMissing[0] counts
+  | ["getft", i] => i.toNat?.map (.get · false)    -- Get(i, false, true)
   | ["evict", i] => i.toNat?.map .evict
   | ["foreach"] => some .forEach
   | ["clear"] => some .clear
